@@ -119,6 +119,68 @@ def probe_rewrite(impl, prev, new, mode, inject_at=None, flush=True):
         shutil.rmtree(d, ignore_errors=True)
 
 
+def profile_rewrite(impl, prev, new, mode, outdir, inject_at=None):
+    """Implementation-agnostic observation: sys.setprofile stops at every C-level call/return made while
+    write_smtlib_to_file runs; the output path is read from disk at each stop (a concurrent reader at every instant
+    between low-level operations) and KeyboardInterrupt can be raised at stop number inject_at."""
+    import sys
+    nodeio = impl.nodeio
+    d = tempfile.mkdtemp(prefix='verif-c06p-', dir=outdir)
+    out = os.path.join(d, 'out.smt2')
+    old = (impl.ARGS.pretty_print, impl.ARGS.wrap_lines)
+    impl.ARGS.pretty_print, impl.ARGS.wrap_lines = mode == 'pretty', mode == 'wrap'
+    snaps = []
+    state = dict(n=0, busy=False)
+
+    def read_out():
+        try:
+            fd = os.open(out, os.O_RDONLY)
+        except FileNotFoundError:
+            return None
+        try:
+            data = b''
+            while True:
+                b = os.read(fd, 1 << 16)
+                if not b:
+                    break
+                data += b
+            return data.decode(errors='replace')
+        finally:
+            os.close(fd)
+
+    def hook(frame, event, arg):
+        if event not in ('c_call', 'c_return') or state['busy'] or not state.get('armed'):
+            return
+        state['busy'] = True
+        try:
+            snaps.append(read_out())
+            state['n'] += 1
+            if inject_at is not None and state['n'] - 1 == inject_at:
+                raise KeyboardInterrupt()
+        finally:
+            state['busy'] = False
+    try:
+        if prev is not None:
+            nodeio.write_smtlib_to_file(out, prev)
+        prev_text = read_out()
+        interrupted = False
+        sys.setprofile(hook)
+        try:
+            state['armed'] = True
+            nodeio.write_smtlib_to_file(out, new)
+        except KeyboardInterrupt:
+            interrupted = True
+        finally:
+            state['armed'] = False
+            sys.setprofile(None)
+        final = read_out()
+        return dict(prev_text=prev_text, snaps=snaps, final=final, interrupted=interrupted, nstops=state['n'],
+                    leftovers=[f for f in os.listdir(d) if f != 'out.smt2'])
+    finally:
+        impl.ARGS.pretty_print, impl.ARGS.wrap_lines = old
+        shutil.rmtree(d, ignore_errors=True)
+
+
 def polled_run(job, kill=None, after=None):
     """Real ddSMT run with a concurrent reader polling the output file; optional signal after `after` seconds."""
     d = tempfile.mkdtemp(prefix='verif-c06r-', dir=e2e.SCRATCH_ROOT)
@@ -203,6 +265,8 @@ def run(ctx):
     if not ok:
         raise common.BuildError(log[-3000:])
     import impl
+    from ddsmt import tmpfiles
+    tmpfiles.init()          # as ddsmt_main does before any strategy runs
     model = common.Model()
     rng = ctx.rng
     npairs = 40 if ctx.thorough else 8
@@ -245,6 +309,37 @@ def run(ctx):
             if inj != 'buffered':
                 calls.append((46, [[] if r['prev_text'] is None else [w_str(r['prev_text'])], r['ops']]))
                 meta.append((r, mode, inj))
+    # implementation-agnostic pass: stop at every C-level call/return; output also on another filesystem than $TMPDIR
+    outdirs = [e2e.SCRATCH_ROOT] + (['/dev/shm'] if os.path.isdir('/dev/shm') and os.access('/dev/shm', os.W_OK) else [])
+    nprof = 0
+    for k in range(12 if ctx.thorough else 3):
+        prev = impl.from_shapes(gen.gen_shapes(rng, maxdepth=3) or [('a',)])
+        new = impl.from_shapes(gen.gen_shapes(rng, maxdepth=3) or [('b', 'c')])
+        mode = ['default', 'pretty', 'wrap'][k % 3]
+        for outdir in outdirs:
+            base = profile_rewrite(impl, prev, new, mode, outdir)
+            stops = list(range(base['nstops'])) if ctx.thorough or base['nstops'] <= 60 else sorted(rng.sample(range(base['nstops']), 60))
+            for inj in [None] + stops:
+                r = base if inj is None else profile_rewrite(impl, prev, new, mode, outdir, inject_at=inj)
+                nprof += 1
+                ctx.case(['profile', k, mode, outdir, inj], True)
+                allowed = {r['prev_text'], base['final']}
+                problems = []
+                badsnap = next((s_ for s_ in r['snaps'] if s_ not in allowed), 'ok')
+                if badsnap != 'ok':
+                    problems.append(f'a reader between two low-level operations saw {badsnap!r:.80}: neither the previous nor the new complete text')
+                if r['final'] not in allowed:
+                    problems.append(f'after an interrupt at stop {inj} the file holds {r["final"]!r:.80}')
+                if problems:
+                    ctx.violation('impl-violation', input=json.dumps(dict(prev=impl.to_shapes(prev), new=impl.to_shapes(new))), format=mode,
+                                  output_dir=outdir, inject_at=inj, observed='; '.join(problems),
+                                  expected='previous or new complete content at every instant and after an interrupt')
+                    break
+    ctx.count('profile-hook observations', nprof)
+    try:
+        getattr(tmpfiles, '__TMPDIR').cleanup()
+    except Exception:  # noqa
+        pass
     res = model.batch(calls)
     for (r, mode, inj), got in zip(meta, res):
         want = [None if s is None else s for s in r['snaps']]
